@@ -53,7 +53,7 @@ def instantiations(tier, seed):
                     c["vb"] = rng.choice([[0, 0], [1, 1], [0, 1]])
         pool = list(pl.leaves(m)) + ids
         assumed = rng.sample(pool, min(2, len(pool))) if k % 2 == 1 else []
-        out.append({"model": m, "assumed": assumed, "warm": k % 3 == 1})
+        out.append({"model": m, "assumed": assumed, "warm": k % 3 == 1, "aform": ["int", "tuple", "bounds"][(k // 2) % 3]})
     # reduce() called directly on the logical connectives' own classes (a subclass may override reduce) with integer leaves that can be
     # negative next to leaves that can be fixed to true: no pre-fixed compound, no assume step
     for k, sk in enumerate([F.N("Any", F.j(), F.a(), id="A"), F.N("All", F.N("Any", F.j(), F.a(), F.b(), id="B"), F.c(), id="A"),
@@ -113,7 +113,7 @@ def run_inst(spec, run):
             else:
                 o = ctx.int("o_" + a, 0, 1)
                 fixed[a] = (lambda r, p=p, o=o: z3.If(p.e, o.e, r))
-            fent[a] = (p, o)
+            fent[a] = (p, plh.form(ns, spec.get("aform", "int"), o))     # the constant as int, (v, v) tuple or Bounds(v, v)
             pres[a] = (p, o)
         ref = pl.obj_sem(ns, m0, zx, fixed)
         m1 = pl.build(ns, model_spec, env)
